@@ -3,8 +3,10 @@
    [locate_f n f] resolves a node identity to its context (ancestors nearest
    first, sibling list, own sub-tree); every q_* query of Nav.v is computed
    from that context the way the Python accessor computes it from pointers. *)
+From Coq Require Import String.
 From Coq Require Import List ZArith Bool Arith.
-From NT Require Import Sx Rose Nav NavProofs.
+From NT Require Import Sx Rose Nav NavProofs NavLaws NavSource.
+From NTGen Require Import Generated.
 Import ListNotations.
 
 (* every node of a forest with unique identities has exactly its own context *)
@@ -123,6 +125,265 @@ Theorem C10_common_ancestor_none : forall c o,
 Proof. exact common_ancestor_none. Qed.
 Print Assumptions C10_common_ancestor_none.
 
+(* ================================================================== *)
+(* Full strength, from PRE-ORDER MEMBERSHIP (NavLaws.v)                 *)
+(* ================================================================== *)
+
+(* the ancestor chain of every structural context, top first, is exactly the
+   list of nodes whose branch contains the node's identity, in pre-order *)
+Theorem C10_ancestors_are_the_containing_nodes : forall f c, NoDup (ids f) -> ctx_ok f c ->
+  rev (c_anc c) = filter (fun a => existsb (Nat.eqb (rid (c_self c))) (ids (rch a))) (pre_f f).
+Proof. exact anc_filter. Qed.
+Print Assumptions C10_ancestors_are_the_containing_nodes.
+
+Theorem C10_parent_list_is_preorder_filter : forall f n c, NoDup (ids f) -> locate_f n f = Some c ->
+  q_parent_list c false false = filter (fun a => existsb (Nat.eqb n) (ids (rch a))) (pre_f f).
+Proof. exact parent_list_filter. Qed.
+Print Assumptions C10_parent_list_is_preorder_filter.
+
+(* a node has exactly one structural context *)
+Theorem C10_context_unique : forall f c c', NoDup (ids f) -> ctx_ok f c -> ctx_ok f c' ->
+  rid (c_self c) = rid (c_self c') -> c = c'.
+Proof. exact ctx_unique. Qed.
+Print Assumptions C10_context_unique.
+
+(* is_descendant_of: sound AND complete w.r.t. membership in the branch *)
+Theorem C10_descendant_iff : forall f n c a, NoDup (ids f) -> locate_f n f = Some c -> In a (pre_f f) ->
+  (q_is_descendant_of c (rid a) = true <-> In (c_self c) (pre_f (rch a))).
+Proof. exact descendant_iff. Qed.
+Print Assumptions C10_descendant_iff.
+
+(* the converse of C10_descendant_sound, as asked *)
+Theorem C10_descendant_complete : forall f n c a, NoDup (ids f) -> locate_f n f = Some c -> In a (pre_f f) ->
+  In (c_self c) (pre_f (rch a)) -> q_is_descendant_of c (rid a) = true.
+Proof. exact descendant_complete. Qed.
+Print Assumptions C10_descendant_complete.
+
+(* a.is_ancestor_of(b) <-> b in a's branch <-> b.is_descendant_of(a) *)
+Theorem C10_ancestor_iff : forall f n m c o, NoDup (ids f) -> locate_f n f = Some c -> locate_f m f = Some o ->
+  (q_is_ancestor_of o (rid (c_self c)) = true <-> In (c_self o) (pre_f (rch (c_self c)))) /\
+  (q_is_ancestor_of o (rid (c_self c)) = q_is_descendant_of o (rid (c_self c))).
+Proof. exact ancestor_iff. Qed.
+Print Assumptions C10_ancestor_iff.
+
+Theorem C10_descendant_transitive : forall f n m c b a, NoDup (ids f) -> locate_f n f = Some c ->
+  locate_f m f = Some b -> In a (pre_f f) ->
+  q_is_descendant_of c (rid (c_self b)) = true -> q_is_descendant_of b (rid a) = true ->
+  q_is_descendant_of c (rid a) = true.
+Proof. exact descendant_trans. Qed.
+Print Assumptions C10_descendant_transitive.
+
+Theorem C10_descendant_asymmetric : forall f n m c b, NoDup (ids f) -> locate_f n f = Some c ->
+  locate_f m f = Some b ->
+  q_is_descendant_of c (rid (c_self b)) = true -> q_is_descendant_of b (rid (c_self c)) = false.
+Proof. exact descendant_asym. Qed.
+Print Assumptions C10_descendant_asymmetric.
+
+(* nearest common ancestor: an ancestor-or-self of BOTH nodes, and every node
+   whose sub-tree contains both contains the answer (= the deepest such node);
+   None exactly when no node contains both *)
+Theorem C10_common_ancestor_full : forall f n m c o, NoDup (ids f) -> locate_f n f = Some c -> locate_f m f = Some o ->
+  match q_common_ancestor c o with
+  | Some a => In a (pre_f f) /\ In (c_self c) (pre a) /\ In (c_self o) (pre a) /\
+              forall b, In b (pre_f f) -> In (c_self c) (pre b) -> In (c_self o) (pre b) -> In a (pre b)
+  | None => forall b, In b (pre_f f) -> In (c_self c) (pre b) -> In (c_self o) (pre b) -> False
+  end.
+Proof. exact common_ancestor_full. Qed.
+Print Assumptions C10_common_ancestor_full.
+
+Theorem C10_common_ancestor_symmetric : forall f n m c o, NoDup (ids f) -> locate_f n f = Some c ->
+  locate_f m f = Some o -> q_common_ancestor c o = q_common_ancestor o c.
+Proof. exact common_ancestor_sym. Qed.
+Print Assumptions C10_common_ancestor_symmetric.
+
+(* ================================================================== *)
+(* Mutual-consistency laws                                              *)
+(* ================================================================== *)
+
+(* children / parent are inverse *)
+Theorem C10_children_parent_inverse : forall f n m c cx, NoDup (ids f) -> locate_f n f = Some c ->
+  locate_f m f = Some cx ->
+  (In (c_self cx) (q_children c) <-> q_parent cx = Some (c_self c)).
+Proof. exact children_parent_inverse. Qed.
+Print Assumptions C10_children_parent_inverse.
+
+(* every query of a child, from its parent's: depth = S depth, siblings(add_self) = the parent's
+   children, first/last sibling = first/last child, is-first/is-last, ancestor list, path, top, up *)
+Theorem C10_child_laws : forall f n m c cx, NoDup (ids f) -> locate_f n f = Some c -> locate_f m f = Some cx ->
+  In (c_self cx) (q_children c) ->
+  q_parent cx = Some (c_self c) /\
+  q_is_top cx = false /\
+  q_depth cx = S (q_depth c) /\
+  q_siblings cx true = q_children c /\
+  q_first_sibling cx = q_first_child c /\
+  q_last_sibling cx = q_last_child c /\
+  (q_is_first cx = true <-> q_first_child c = Some (c_self cx)) /\
+  (q_is_last cx = true <-> q_last_child c = Some (c_self cx)) /\
+  q_parent_list cx false false = q_parent_list c true false /\
+  q_path cx false = q_path c true /\
+  q_path cx true = q_path c true ++ 47%Z :: node_name (c_self cx) /\
+  q_top cx = q_top c /\
+  q_up cx 1 = Some (Some (c_self c)) /\
+  (forall k, q_up cx (S (S k)) = q_up c (S k)).
+Proof. exact child_laws. Qed.
+Print Assumptions C10_child_laws.
+
+(* top-level nodes: the forest is their sibling list *)
+Theorem C10_top_level_laws : forall f m cx, NoDup (ids f) -> locate_f m f = Some cx ->
+  (In (c_self cx) f <-> q_parent cx = None) /\
+  (q_parent cx = None ->
+     q_is_top cx = true /\ q_depth cx = 1 /\ q_siblings cx true = f /\
+     q_first_sibling cx = hd_error f /\ q_last_sibling cx = last_error f /\
+     q_parent_list cx false false = [] /\ q_path cx false = [47%Z] /\
+     q_path cx true = 47%Z :: node_name (c_self cx) /\ q_top cx = c_self cx /\ q_up cx 1 = Some None).
+Proof. exact top_level_laws. Qed.
+Print Assumptions C10_top_level_laws.
+
+(* is_leaf <-> children = [] <-> height 0; first/last child = head/last of children *)
+Theorem C10_leaf_laws : forall c,
+  (q_is_leaf c = true <-> q_children c = []) /\
+  (q_is_leaf c = true <-> q_height c = 0) /\
+  (q_is_leaf c = true <-> q_first_child c = None) /\
+  q_has_children c = negb (q_is_leaf c) /\
+  q_first_child c = hd_error (q_children c) /\
+  q_last_child c = last_error (q_children c) /\
+  (forall x, q_first_child c = Some x -> In x (q_children c)) /\
+  (forall x, q_last_child c = Some x -> In x (q_children c)).
+Proof. exact leaf_laws. Qed.
+Print Assumptions C10_leaf_laws.
+
+(* height = depth of the deepest descendant, relative to the node *)
+Theorem C10_height_is_deepest_descendant : forall f n c, NoDup (ids f) -> locate_f n f = Some c ->
+  (forall m cd, locate_f m f = Some cd -> In (c_self cd) (pre (c_self c)) ->
+     q_depth c <= q_depth cd <= q_depth c + q_height c) /\
+  (exists m cd, locate_f m f = Some cd /\ In (c_self cd) (pre (c_self c)) /\
+     q_depth cd = q_depth c + q_height c).
+Proof. exact height_depth. Qed.
+Print Assumptions C10_height_is_deepest_descendant.
+
+(* Tree.calc_height = the largest depth of any node *)
+Theorem C10_tree_height_is_max_depth : forall f, NoDup (ids f) ->
+  (forall m cd, locate_f m f = Some cd -> q_depth cd <= tree_height f) /\
+  (f <> [] -> exists m cd, locate_f m f = Some cd /\ q_depth cd = tree_height f) /\
+  (f = [] -> tree_height f = 0).
+Proof. exact tree_height_max_depth. Qed.
+Print Assumptions C10_tree_height_is_max_depth.
+
+(* count_descendants = |pre-order of the branch| - 1 = sum over children (1 + count);
+   leaves only: sum over children (1 for a leaf, else its leaf count) *)
+Theorem C10_count_laws : forall c,
+  q_count_desc c false = length (pre_f (rch (c_self c))) /\
+  S (q_count_desc c false) = length (pre (c_self c)) /\
+  (forall cs, map c_self cs = q_children c ->
+     q_count_desc c false = list_sum (map (fun cx => S (q_count_desc cx false)) cs) /\
+     q_count_desc c true = list_sum (map (fun cx => if q_is_leaf cx then 1 else q_count_desc cx true) cs)) /\
+  q_count_desc c true <= q_count_desc c false /\
+  (q_is_leaf c = true -> q_count_desc c true = 0 /\ q_count_desc c false = 0) /\
+  (q_is_leaf c = false -> 1 <= q_count_desc c true) /\
+  q_count_desc c true = length (filter is_leaf_t (pre_f (rch (c_self c)))).
+Proof. exact count_laws. Qed.
+Print Assumptions C10_count_laws.
+
+(* path = "/" + "/".join(names of the ancestor chain, top first) *)
+Theorem C10_path_is_joined_names : forall c a,
+  q_path c a = 47%Z :: join [47%Z] (map node_name (q_parent_list c a false)).
+Proof. exact path_spec. Qed.
+Print Assumptions C10_path_is_joined_names.
+
+(* up(1) = parent (the system root for top-level nodes); up(j+k) = up(j) of up(k) *)
+Theorem C10_up_one : forall c, q_up c 1 = Some (q_parent c).
+Proof. exact up_one. Qed.
+Print Assumptions C10_up_one.
+
+Theorem C10_up_composes : forall f n c k p cp j, NoDup (ids f) -> locate_f n f = Some c ->
+  q_up c k = Some (Some p) -> locate_f (rid p) f = Some cp -> 1 <= j ->
+  q_up c (j + k) = q_up cp j.
+Proof. exact up_compose. Qed.
+Print Assumptions C10_up_composes.
+
+(* get_top is THE top-level node whose sub-tree contains the node *)
+Theorem C10_top_unique : forall f n c, NoDup (ids f) -> locate_f n f = Some c ->
+  In (q_top c) f /\ In (c_self c) (pre (q_top c)) /\
+  (forall x, In x f -> In (c_self c) (pre x) -> x = q_top c) /\
+  (q_top c = c_self c <-> q_is_top c = true).
+Proof. exact top_unique. Qed.
+Print Assumptions C10_top_unique.
+
+(* next_sibling / prev_sibling are inverse; the index advances by one; same parent *)
+Theorem C10_next_prev_inverse : forall f n m c cy, NoDup (ids f) -> locate_f n f = Some c ->
+  locate_f m f = Some cy ->
+  (q_next c = Some (c_self cy) <-> q_prev cy = Some (c_self c)) /\
+  (q_next c = Some (c_self cy) -> q_index cy = option_map S (q_index c) /\ q_parent cy = q_parent c).
+Proof. exact next_prev_inverse. Qed.
+Print Assumptions C10_next_prev_inverse.
+
+(* get_index is THE position of the node in its sibling list (= siblings(add_self=True)): no other position
+   holds a node with this identity *)
+Theorem C10_index_is_position : forall f n c, NoDup (ids f) -> locate_f n f = Some c ->
+  exists k, q_index c = Some k /\ nth_error (q_siblings c true) k = Some (c_self c) /\
+    forall j x, nth_error (q_siblings c true) j = Some x -> rid x = rid (c_self c) -> j = k.
+Proof. exact index_is_position. Qed.
+Print Assumptions C10_index_is_position.
+
+(* Tree-level accessors: tree.children / get_toplevel_nodes = the sibling list of every top-level node and exactly
+   the nodes that are top-level; first_child / last_child its ends; len(tree) = tree.count = number of nodes =
+   count_descendants of the system root = sum over the top-level nodes (1 + count); leaves likewise *)
+Theorem C10_tree_level_laws : forall f, NoDup (ids f) ->
+  (forall m cx, locate_f m f = Some cx -> q_is_top cx = true ->
+     q_siblings cx true = tr_children f /\ q_first_sibling cx = tr_first_child f /\
+     q_last_sibling cx = tr_last_child f /\ In (c_self cx) (tr_children f)) /\
+  (forall x, In x (tr_children f) -> exists cx, locate_f (rid x) f = Some cx /\ c_self cx = x /\ q_is_top cx = true) /\
+  tr_count f = length (ids f) /\
+  tr_count f = tr_count_desc f false /\
+  (forall cs, map c_self cs = tr_children f ->
+     tr_count f = list_sum (map (fun c => S (q_count_desc c false)) cs) /\
+     tr_count_desc f true = list_sum (map (fun c => if q_is_leaf c then 1 else q_count_desc c true) cs)) /\
+  (tr_children f = [] <-> tr_count f = 0) /\
+  (f <> [] -> 1 <= tr_count_desc f true <= tr_count f).
+Proof. exact tree_level_laws. Qed.
+Print Assumptions C10_tree_level_laws.
+
+(* ================================================================== *)
+(* Source tie: lexical facts lifted from nutree/node.py (Generated.v,   *)
+(* section NAV) agree with what the model computes                       *)
+(* ================================================================== *)
+
+(* get_index / prev_sibling / next_sibling / is_first_sibling / is_last_sibling / get_siblings find the node's
+   position BY IDENTITY (`is self`, directly or through get_index) in self._parent._children; no relationship
+   accessor of node.py compares nodes with ==, !=, in, list.index/.count/.remove, or contains an `==` at all *)
+Theorem C10_source_identity_not_equality : GEN_NAV_OK = true /\ node_identity_ok = true.
+Proof. exact node_identity_holds. Qed.
+Print Assumptions C10_source_identity_not_equality.
+
+(* the literal subscripts of node.py ([0], [-1], [idx - 1], [idx + 1]) are the positions the model reads *)
+Theorem C10_source_subscripts : forall c : ctx,
+  q_first_child c = py_at (rch (c_self c)) (sub_lit "Node.first_child") /\
+  q_last_child c = py_at (rch (c_self c)) (sub_lit "Node.last_child") /\
+  q_first_sibling c = py_at (c_sibs c) (sub_lit "Node.first_sibling") /\
+  q_last_sibling c = py_at (c_sibs c) (sub_lit "Node.last_sibling") /\
+  q_is_first c = match py_at (c_sibs c) (sub_lit "Node.is_first_sibling") with
+                 | Some t => is_self (rid (c_self c)) t | None => false end /\
+  q_is_last c = match py_at (c_sibs c) (sub_lit "Node.is_last_sibling") with
+                | Some t => is_self (rid (c_self c)) t | None => false end /\
+  (forall i, q_index c = Some (S i) -> q_is_first c = false ->
+     q_prev c = py_at (c_sibs c) (Z.of_nat (S i) + sub_var "Node.prev_sibling")) /\
+  (forall i, q_index c = Some i -> q_is_last c = false ->
+     q_next c = py_at (c_sibs c) (Z.of_nat i + sub_var "Node.next_sibling")).
+Proof. exact node_subscripts_agree. Qed.
+Print Assumptions C10_source_subscripts.
+
+(* counters of calc_depth (`depth = 0`, `depth += 1` once per _parent link up to the system root),
+   count_descendants (`i = 0`, `i += 1`), calc_height (`height = 0`, `_ch(self, 0)`, `h + 1`, `h > height`)
+   and the guard of up() (`level < 1`) *)
+Theorem C10_source_counters : forall c : ctx,
+  Z.of_nat (q_depth c) = (NAV_DEPTH_INIT + NAV_DEPTH_STEP * Z.of_nat (S (length (c_anc c))))%Z /\
+  Z.of_nat (q_count_desc c false) = (NAV_COUNT_INIT + NAV_COUNT_STEP * Z.of_nat (length (pre_f (rch (c_self c)))))%Z /\
+  (NAV_HEIGHT_INIT = 0%Z /\ NAV_HEIGHT_START = 0%Z /\ NAV_HEIGHT_STEP = 1%Z /\ NAV_HEIGHT_CMP = tx "Gt") /\
+  (forall k, cmp_eval NAV_UP_GUARD_OP (Z.of_nat k) NAV_UP_GUARD_K = Some true <-> k = 0) /\
+  q_up c 0 = None.
+Proof. exact node_counters_agree. Qed.
+Print Assumptions C10_source_counters.
+
 (* non-vacuity: a forest whose siblings carry equal-comparing data (same i_eqc)
    under different identities; the queries distinguish them *)
 Example C10_nonvacuous :
@@ -139,4 +400,25 @@ Proof.
   - eexists. split; [vm_compute; reflexivity|]. vm_compute.
     refine (conj eq_refl (conj eq_refl (conj eq_refl (conj eq_refl (conj eq_refl _))))).
     eexists. split; [reflexivity|]. split; reflexivity.
+Qed.
+
+(* non-vacuity of the pre-order statements: node 5 lies in the branch of 3 and of 1 but not of 2;
+   the common ancestor of the siblings' descendants 5 and 4 is 1; across top-level branches: None *)
+Example C10_nonvacuous_full :
+  let i d := I 0 7 0 false [] (DInt d) None [] in
+  let t3 := T 3 (i 3%Z) [T 5 (i 5%Z) []] in
+  let t1 := T 1 (i 1%Z) [T 2 (i 2%Z) []; t3; T 4 (i 4%Z) []] in
+  let f := [t1; T 6 (i 6%Z) []] in
+  NoDup (ids f) /\ In t3 (pre_f f) /\ In (T 5 (i 5%Z) []) (pre_f (rch t3)) /\
+  exists c5 c4 c6, locate_f 5 f = Some c5 /\ locate_f 4 f = Some c4 /\ locate_f 6 f = Some c6 /\
+    q_is_descendant_of c5 3 = true /\ q_is_descendant_of c5 2 = false /\
+    option_map rid (q_common_ancestor c5 c4) = Some 1 /\ q_common_ancestor c5 c6 = None /\
+    q_depth c5 = 3 /\ tree_height f = 3 /\ q_count_desc c4 true = 0.
+Proof.
+  cbv zeta. split; [|split; [|split]].
+  - vm_compute. repeat constructor; cbn; intuition discriminate.
+  - cbn. tauto.
+  - cbn. tauto.
+  - do 3 eexists. split; [vm_compute; reflexivity|]. split; [vm_compute; reflexivity|]. split; [vm_compute; reflexivity|].
+    vm_compute. repeat split.
 Qed.
